@@ -40,7 +40,7 @@ M = [
  ("C19-inplace-mask", "C19", "src/fast_ticc/front_end.py", "    label_switching_cost = label_switching_cost * lsc_template\n", "    if isinstance(label_switching_cost, np.ndarray):\n        label_switching_cost *= lsc_template\n    else:\n        label_switching_cost = label_switching_cost * lsc_template\n"),
  ("C19-filter-inplace-on-covariance", "C19 C03", "src/fast_ticc/graphical_lasso.py", "    admm_args = [\n        cluster.empirical_covariance,", "    admm_args = [\n        _zero_small_elements(cluster.empirical_covariance, 1e-300, copy=False),"),
  ("C19-S-modified-in-xupdate", "C19", "src/fast_ticc/admm/solver.py", "    d, q = np.linalg.eigh(rho * z_minus_u - empirical_covariance)", "    empirical_covariance *= 1.0\n    d, q = np.linalg.eigh(rho * z_minus_u - empirical_covariance)"),
- ("C20-revert-pool-cleanup", "C20", "src/fast_ticc/main_loop.py", "        task_pool.terminate()\n        task_pool.join()\n        raise", "        raise"),
+ ("C20-revert-pool-cleanup", "C20", "src/fast_ticc/main_loop.py", "        task_pool.close()\n        task_pool.join()\n        raise", "        raise"),
  ("C20-swallow-task-error", "C20", "src/fast_ticc/graphical_lasso.py", "        admm_result = optimization_task.get()\n        updated_clusters.append(\n            _update_cluster_covariances(model, cluster, admm_result.theta)\n        )", "        try:\n            admm_result = optimization_task.get()\n        except MemoryError:\n            updated_clusters.append(cluster)\n            continue\n        updated_clusters.append(\n            _update_cluster_covariances(model, cluster, admm_result.theta)\n        )"),
  ("C20-typeerror-wrong-name", "C20", "src/fast_ticc/front_end.py", "array.  Did you mean to call ticc_joint_labels instead?", "array.  Did you mean to call ticc_labels instead?"),
  ("C15-fallback-prange-ignores-start", "C15", "src/fast_ticc/numba_guard.py", "    return range(*args, **kwargs)", "    return range(args[-1])"),
